@@ -1,6 +1,248 @@
-/-! line-protocol handlers (stub: filled in when the suite is built) -/
-namespace Apko.Driver.FS
+import Apko.Model.FS
+/-! line-protocol handlers for corr:fs
 
-def handle (_args : List String) : Option String := none
+* `fs.run  <backend> <op> <op> …`   whole operation sequence (stateless); answer
+  `r1~h1;r2~h2;…#dump` for Impl and for Spec, where `ri` is the result of op `i`, `hi` the
+  FNV-1a hash of the canonical dump of the node graph after op `i`, `dump` the final dump.
+* `fs.trace <backend> <op> …`       same, with the full dump after every op (debugging).
+* `p.clean|p.dir|p.base|p.join|p.valid`  `Model/Path.lean` against `path/filepath`.
+-/
+namespace Apko.Driver.FS
+open Apko Apko.Path Apko.FS
+
+def T (s : String) : Text := s.toList
+
+def natS (n : Nat) : Text := T (toString n)
+def intS (n : Int) : Text := T (toString n)
+
+def parseNat (s : String) : Nat := s.toList.foldl (fun a c => a * 10 + (c.toNat - 48)) 0
+def parseInt (s : String) : Int :=
+  match s.toList with
+  | '-' :: r => - (Int.ofNat (r.foldl (fun a c => a * 10 + (c.toNat - 48)) 0))
+  | r => Int.ofNat (r.foldl (fun a c => a * 10 + (c.toNat - 48)) 0)
+
+def errS : Err → Text
+  | .notExist => T "ENOENT" | .exist => T "EEXIST" | .parentNotDir => T "EPARENTNOTDIR"
+  | .pathNotDir => T "EPATHNOTDIR" | .notDir => T "ENOTDIR" | .isDir => T "EISDIR"
+  | .loop => T "ELOOP" | .tooManyLinks => T "EMLINK" | .notLink => T "ENOTLINK"
+  | .notDevice => T "ENOTDEV" | .closed => T "ECLOSED" | .invalid => T "EINVAL"
+  | .whence => T "EWHENCE" | .notWrite => T "ENOTWRITE" | .conflictNoTe => T "ECONFLICT-NOTE"
+  | .conflictSum => T "ECONFLICT-SUM" | .fileConflict => T "EFILECONFLICT"
+  | .nilChecksum => T "ENILSUM" | .unsupported => T "EUNSUPPORTED"
+
+def sepJoin (sep : Text) (l : List Text) : Text := joinWith sep l
+
+def kvS (l : List (Name × Text)) : Text :=
+  sepJoin (T "+") (l.map fun e => hex e.1 ++ T "=" ++ hex e.2)
+
+def statS (s : StatInfo) : Text :=
+  sepJoin (T "/") [hex s.name, natS s.size, natS s.mode, intS s.mtime, if s.isDir then T "1" else T "0",
+    intS s.uid, intS s.gid, match s.hardlink with | none => T "-" | some l => T "L" ++ hex l]
+
+def valS : Val → Text
+  | .unit => T "ok"
+  | .handle _ => T "h"
+  | .bytes b eof => T "b" ++ hex b ++ (if eof then T "|EOF" else [])
+  | .num n => T "n" ++ intS n
+  | .stat s => T "s" ++ statS s
+  | .entries es => T "e" ++ sepJoin (T "+") (es.map statS)
+  | .text t => T "t" ++ hex t
+  | .xattrs l => T "x" ++ kvS l
+  | .bool b => if b then T "true" else T "false"
+
+def outS : Out → Text
+  | .ok v => valS v
+  | .err e => errS e
+  | .nohandle => T "nohandle"
+
+/-! ### canonical dump of the node graph (what the `VerifDump` hooks print) -/
+
+def teS : Option TarEntry → Text
+  | none => T "-"
+  | some te => sepJoin (T "/") [natS te.size, hex te.content, hex te.checksum, hex te.pkgName]
+
+def attrsS (n : Inode) : Text :=
+  sepJoin (T ",") [if n.dir then T "D" else T "F", natS n.mode, intS n.uid, intS n.gid, intS n.mtime,
+    natS n.nlink, hex n.data, hex n.target, natS n.major, natS n.minor, kvS (sortNames n.xattrs),
+    teS n.te, kvS (sortNames n.hardlinks)]
+
+def indexOf (l : List Ino) (i : Ino) : Option Nat :=
+  let r := l.findIdx (· = i)
+  if r < l.length then some r else none
+
+mutual
+def dumpNode (fs : FS) : Nat → Text → Ino → List Ino → List Text × List Ino
+  | 0, _, _, vis => ([], vis)
+  | fuel + 1, path, i, vis =>
+    match indexOf vis i with
+    | some k => ([hex path ++ T ":" ++ natS k], vis)
+    | none =>
+      let n := fs.node i
+      let recd := hex path ++ T ":" ++ natS vis.length ++ T ":" ++ attrsS n
+      let (rs, vis') := dumpKids fs fuel path (sortNames n.children) (vis ++ [i])
+      (recd :: rs, vis')
+def dumpKids (fs : FS) : Nat → Text → List (Name × Ino) → List Ino → List Text × List Ino
+  | 0, _, _, vis => ([], vis)
+  | _, _, [], vis => ([], vis)
+  | fuel + 1, path, (nm, i) :: rest, vis =>
+    let (r1, v1) := dumpNode fs fuel (path ++ T "/" ++ nm) i vis
+    let (r2, v2) := dumpKids fs fuel path rest v1
+    (r1 ++ r2, v2)
+end
+
+def dump (fs : FS) : Text :=
+  sepJoin (T ";") (dumpNode fs (2 * fs.nodes.length + 4 + (fs.nodes.map (·.children.length)).sum) [] 0 []).1
+
+def fnv (t : Text) : Text :=
+  let h := t.foldl (fun (h : UInt64) c => (h ^^^ (UInt64.ofNat c.toNat)) * 1099511628211) 14695981039346656037
+  natS h.toNat
+
+/-! ### request decoding -/
+
+def ux (s : String) : Text := unhexS s
+
+def parseKV (s : String) : List (Name × Text) :=
+  if s.isEmpty then [] else
+  (s.splitOn "+").map fun e =>
+    match e.splitOn "=" with
+    | [k, v] => (ux k, ux v)
+    | _ => (ux e, [])
+
+def parseOp (tok : String) : Option Op :=
+  match tok.splitOn "," with
+  | ["mkdir", p, m] => some (.mkdir (ux p) (parseNat m))
+  | ["mkdirall", p, m] => some (.mkdirAll (ux p) (parseNat m))
+  | ["open", p, f, m] => some (.openFile (ux p) (parseNat f) (parseNat m))
+  | ["create", p] => some (.create (ux p))
+  | ["close", h] => some (.close (parseNat h))
+  | ["read", h, n] => some (.read (parseNat h) (parseNat n))
+  | ["readat", h, n, o] => some (.readAt (parseNat h) (parseNat n) (parseInt o))
+  | ["write", h, d] => some (.write (parseNat h) (ux d))
+  | ["seek", h, o, w] => some (.seek (parseNat h) (parseInt o) (parseNat w))
+  | ["hstat", h] => some (.hstat (parseNat h))
+  | ["readfile", p] => some (.readFile (ux p))
+  | ["writefile", p, d, m] => some (.writeFile (ux p) (ux d) (parseNat m))
+  | ["readdir", p] => some (.readDir (ux p))
+  | ["stat", p] => some (.stat (ux p))
+  | ["lstat", p] => some (.lstat (ux p))
+  | ["remove", p] => some (.remove (ux p))
+  | ["chmod", p, m] => some (.chmod (ux p) (parseNat m))
+  | ["chown", p, u, g] => some (.chown (ux p) (parseInt u) (parseInt g))
+  | ["chtimes", p, t] => some (.chtimes (ux p) (parseInt t))
+  | ["symlink", t, p] => some (.symlink (ux t) (ux p))
+  | ["link", o, n] => some (.link (ux o) (ux n))
+  | ["readlink", p] => some (.readlink (ux p))
+  | ["mknod", p, m, d] => some (.mknod (ux p) (parseNat m) (parseNat d))
+  | ["readnod", p] => some (.readnod (ux p))
+  | ["setxattr", p, a, d] => some (.setXattr (ux p) (ux a) (ux d))
+  | ["getxattr", p, a] => some (.getXattr (ux p) (ux a))
+  | ["rmxattr", p, a] => some (.removeXattr (ux p) (ux a))
+  | ["listxattrs", p] => some (.listXattrs (ux p))
+  | ["wh", tf, n, l, m, sz, mt, sum, xa, content, pn, po, pr] =>
+    let h : Hdr := {
+      typeflag := parseNat tf
+      name := ux n
+      linkname := ux l
+      mode := parseNat m
+      size := parseNat sz
+      mtime := parseInt mt
+      checksum := (if sum = "-" then none else some (ux sum))
+      xattrs := parseKV xa
+      content := ux content
+      pkgName := ux pn
+      pkgOrigin := ux po
+      pkgReplaces := (if pr.isEmpty then [] else (pr.splitOn "+").map ux) }
+    some (.writeHeader h)
+  | _ => none
+
+/-- what the harness drives: the base file system, or a `SubFS` view of it -/
+structure St where
+  fs : FS
+  sub : Option Text := none
+
+/-- `Sub(path)` of `memFS` / `SubFS` -/
+def subCall (c : Cfg) (st : St) (p : Text) : St × Text :=
+  match st.sub with
+  | none =>
+    let cp := clean p
+    if cp = dot then (st, T "ok") else
+    match getNode c st.fs cp with
+    | .error e => (st, errS e)
+    | .ok i => if !(st.fs.node i).dir then (st, T "ENOTDIR") else ({ st with sub := some cp }, T "ok")
+  | some root =>
+    if !validPath p then (st, T "EINVAL") else
+    let cp := clean p
+    if cp = dot then (st, T "ok") else
+    let full := join2 root cp
+    match getNode c st.fs full with
+    | .error e => (st, errS e)
+    | .ok i => if !(st.fs.node i).dir then (st, T "ENOTDIR") else ({ st with sub := some full }, T "ok")
+
+def runToks (c : Cfg) (verbose : Bool) : List String → St → List Text → List Text × St
+  | [], st, acc => (acc.reverse, st)
+  | tok :: rest, st, acc =>
+    match tok.splitOn "," with
+    | ["sub", p] =>
+      let (st1, r) := subCall c st (ux p)
+      runToks c verbose rest st1 ((r ++ T "~" ++ (if verbose then dump st1.fs else fnv (dump st1.fs))) :: acc)
+    | _ =>
+      match parseOp tok with
+      | none => runToks c verbose rest st (T "bad-op" :: acc)
+      | some op0 =>
+        let op := match st.sub with | none => op0 | some r => subOp r op0
+        let (fs1, o) := step c st.fs op
+        let d := dump fs1
+        runToks c verbose rest { st with fs := fs1 } ((outS o ++ T "~" ++ (if verbose then d else fnv d)) :: acc)
+
+def runCase (c : Cfg) (verbose : Bool) (toks : List String) : String :=
+  let (rs, st) := runToks c verbose toks { fs := FS.empty } []
+  String.ofList (sepJoin (T ";") rs ++ T "#" ++ dump st.fs)
+
+def backendOf : String → Option Backend
+  | "memfs" => some .memfs
+  | "tarfs" => some .tarfs
+  | _ => none
+
+/-- class of a disagreement between Impl and Spec: the single Spec switches that change the
+outcome of this case -/
+def classify (b : Backend) (toks : List String) (impl : String) : String :=
+  let p := runCase { Cfg.impl b with posix := true } false toks
+  let t := runCase { Cfg.impl b with teTrunc := true } false toks
+  match decide (p ≠ impl), decide (t ≠ impl) with
+  | true, true => "F17b+F17d"
+  | true, false => "F17d"
+  | false, true => "F17b"
+  | false, false => "unlisted"
+
+def pathReply (t : Text) : Option String :=
+  let s := hexS t
+  some (s ++ "\t" ++ s ++ "\t-")
+
+def handle (args : List String) : Option String :=
+  match args with
+  | "fs.run" :: b :: toks =>
+    match backendOf b with
+    | none => some "bad-backend\tbad-backend\t-"
+    | some bk =>
+      let impl := runCase (Cfg.impl bk) false toks
+      let spec := runCase (Cfg.spec bk) false toks
+      some (impl ++ "\t" ++ spec ++ "\t" ++ (if impl = spec then "-" else classify bk toks impl))
+  | "fs.trace" :: b :: toks =>
+    match backendOf b with
+    | none => some "bad-backend\tbad-backend\t-"
+    | some bk =>
+      let impl := runCase (Cfg.impl bk) true toks
+      let spec := runCase (Cfg.spec bk) true toks
+      some (impl ++ "\t" ++ spec ++ "\t-")
+  | ["fs.dirfs", op, why, res] =>
+    -- DirFS is judged by the harness-side oracles; the class of a failed verdict is decided here
+    let cls := if why = "atomic" ∧ op = "remove" ∧ (res = "ENOTEMPTY" ∨ res = "EEXIST") then "F17f" else "unlisted"
+    some ("-\t-\t" ++ cls)
+  | ["p.clean", p] => pathReply (clean (ux p))
+  | ["p.dir", p] => pathReply (dir (ux p))
+  | ["p.base", p] => pathReply (base (ux p))
+  | ["p.join", a, b] => pathReply (join2 (ux a) (ux b))
+  | ["p.valid", p] => let r := if validPath (ux p) then "true" else "false"; some (r ++ "\t" ++ r ++ "\t-")
+  | _ => none
 
 end Apko.Driver.FS
